@@ -193,7 +193,7 @@ theorem issue_nonempty (est : α → Nat × Nat) (key : α → κ) (m rmin pmin 
   · intro p hp
     exact (issueMulti_nonempty est key m rmin pmin ops idx [] rmin pmin p hp).1
 
-theorem issue_homogeneous (est : α → Nat × Nat) (key : α → κ) (m rmin pmin idx : Nat) (ops : List α) :
+theorem issue_homogeneous_head (est : α → Nat × Nat) (key : α → κ) (m rmin pmin idx : Nat) (ops : List α) :
     ∀ p ∈ issue est key m rmin pmin idx ops, Homogeneous key p := by
   unfold issue
   split
